@@ -33,7 +33,7 @@ def run(ctx):
             ctx._distinct.add(json.dumps(r["a"], sort_keys=True))
         for name in sorted(fails.get(i, ())):
             path = name.split(":")[0]
-            o = r[{"check_for_errors": "cfe", "ServerProxy": "proxy", "MultiCall[i]": "mcindex", "MultiCall-iter": "mciter",
+            o = r[{"check_for_errors": "cfe", "ServerProxy": "proxy", "ServerProxy-notify": "notify", "MultiCall[i]": "mcindex", "MultiCall-iter": "mciter",
                    "MultiCall[i]-again": "mcindex2", "MultiCall-iter-again": "mciter2", "MultiCall[i]-after-iter": "mcidxiter"}[path]]
             ctx.violation(sig_of(name, r), "%s on reply %s -> %s %s" % (name, r["text"][:160], o["kind"], o.get("text", "")),
                           {"kind": "input", "case": {"a": r["a"], "expect": r["expect"]}, "reply_text": r["text"]})
